@@ -186,6 +186,28 @@ pub fn c18_spice(rng: &mut Rng, def: &mut Definition) {
         SplitBehavior::MergeLeft,
         SplitBehavior::MergeRight,
     ];
+    // normalization and decoding steps with multi-byte characters and boundary parameters: the texts of the C18
+    // alphabet start and end with these characters often enough
+    for _ in 0..rng.range(0, 2) {
+        let c = *rng.pick(&['é', '©', 'ß', '\u{a0}', '▁', '語', '😀', ' ']);
+        let n = *rng.pick(&[0u32, 1, 2, 3, u32::MAX]);
+        let m = *rng.pick(&[0u32, 1, 2, 5, u32::MAX]);
+        let step = match rng.below(5) {
+            0 => Normalization::Strip { character: c, left: n, right: m },
+            1 => Normalization::Extend { character: c, left: n.min(3), right: m.min(3), pad: rng.chance(1, 2) },
+            2 => Normalization::Collapse { character: c },
+            3 => Normalization::Replace { pattern: c.into(), replacement: "".into() },
+            _ => Normalization::Conditional { condition: NormalizationCondition::EndOfText, normalization: Box::new(Normalization::Strip { character: c, left: 0, right: m }) },
+        };
+        def.config.normalization.push(step);
+        if rng.chance(1, 2) {
+            def.config.decoding.push(match rng.below(3) {
+                0 => Decoding::Strip { character: c, left: n, right: m },
+                1 => Decoding::Extend { character: c, left: n.min(3), right: m.min(3), pad: rng.chance(1, 2) },
+                _ => Decoding::Collapse { character: c },
+            });
+        }
+    }
     for _ in 0..rng.range(1, 2) {
         let c = *rng.pick(&['é', '©', 'ß', '\u{a0}', '\u{ff}', '\u{80}', '▁', '語', '😀', ' ']);
         let pattern: SplitPattern = if rng.chance(2, 3) { c.into() } else { c.to_string().as_str().into() };
